@@ -10,7 +10,7 @@ CONSTANTS
   MaxHosts = 1
   MaxRoutes = 2
   MaxDef = 1
-  NHostVals = 5
+  NHostVals = 4
   NPaths = 4
   NQueries = 3
   Others = {0, 1}
